@@ -10,6 +10,7 @@ Monitors, all on the real evaluate_transaction / matches_transaction / single-ru
 Exhaustive for the core grammar up to 4 (quick) / 5 (thorough) AST nodes on a boundary transaction set; random above.
 """
 import ast
+import re
 from datetime import date
 
 from vt import core, lang
@@ -188,6 +189,46 @@ def engine_check(rec, expr, txn, variables, rows, rv):
                       {'kind': 'eval', 'expr': expr, 'txn': jtxn(txn), 'vars': variables, 'rows': rows})
 
 
+def engine_variable_sequence(rec, g, rnd):
+    """A top-level variable is re-evaluated for every transaction, however its expression is spelled: ONE engine, a variable defined with
+    case-flipped names, matched against the transactions one after the other; each answer is the reference truth for that transaction."""
+    from tally.merchant_engine import parse_merchants, MerchantParseError
+    e = g.expr('B', rnd.randint(1, 2)) if rnd.random() < .6 else rnd.choice(['amount > 50', 'month >= 6', 'date >= "2025-01-15"', 'year == 2025 and day > 15',
+                                                                            'weekday < 3', 'amount < 0 or amount > 99', 'description == "netflix"', 'source == "amex"'])
+    if re.search(r'\b(big|is_big|label)\b', e, re.I):
+        return
+    try:
+        e2, changed = lang.case_flip(e, rnd)
+    except SyntaxError:
+        return
+    text = 'v = %s\n\n[R]\nmatch: v\ncategory: C\n' % e2
+    try:
+        eng = parse_merchants(text)
+    except MerchantParseError:
+        return
+    order = list(TXNS)
+    rnd.shuffle(order)
+    rec.count('engine_variable_sequences')
+    for k, txn in enumerate(order):
+        try:
+            truth = bool(lang.Ref(txn, {}, ROWS).eval_str(e))
+        except lang.RefError:
+            truth = False          # the variable has no value for this transaction: the rule that reads it is skipped
+        except (lang.Unmodelled, Exception):
+            continue
+        try:
+            got = eng.match(dict(txn), data_sources=copy_rows(ROWS)).matched
+        except Exception as ex:
+            rec.violation('engine-variable-sequence-raises', f'variable `v = {e2}`: {type(ex).__name__}: {ex}', {'kind': 'varseq', 'expr': e, 'flipped': e2})
+            return
+        rec.count('engine_variable_sequence_checks')
+        if got != truth:
+            rec.violation('engine-variable-differs-in-sequence:' + kind_of(e),
+                          f'one engine, variable `v = {e2}`, rule `match: v`: transaction #{k} {txn.get("description")!r} amount={txn.get("amount")} date={txn.get("date")} '
+                          f'matched={got}, reference truth of {e!r} is {truth}', {'kind': 'varseq', 'expr': e, 'flipped': e2})
+            return
+
+
 def law(rec, ep, name, e1, e2, txn, variables, rows, as_bool=False):
     a = impl_eval(ep, e1, txn, variables, rows)
     b = impl_eval(ep, e2, txn, variables, rows)
@@ -323,6 +364,14 @@ def run(rec, shard, nshards, t):
             e = e % tuple([lit if k == 0 or (e.startswith('%s or') and k == 1) else g.B(1) for k in range(e.count('%s'))]) if not e.startswith('%s or') else \
                 e % (g.B(1), lit, g.B(1))
             typ, toplevel = 'B', True
+        if i % 11 == 5:
+            # `not` applied to numbers, text and lists (truthiness) and used as a VALUE: one negation is a Boolean, two negations are a Boolean too
+            x = g.expr(rnd.choice('NS'), rnd.randint(1, 2))
+            e = rnd.choice(['not not %s', 'not %s', '(not not %s) == true', '(not not %s) == (not not %s)', 'sum(not not r.qty for r in rows) + (not not %s)',
+                            '[not not r.item for r in rows]', '"%%s" %% (not not %s)', 'not not [r for r in rows if r.qty > 1]', 'not (not (%s))'])
+            e = e % tuple([x] * e.replace('%%', '').count('%s'))
+            typ = 'N'
+            rec.count('negations_used_as_values')
         try:
             ast.parse(e, mode='eval')
         except SyntaxError:
@@ -344,6 +393,8 @@ def run(rec, shard, nshards, t):
             shortcircuit(rec, ep, g, rnd, rnd.choice(TXNS), variables, ROWS)
         if i % 7 == 0:
             cache_probes(rec, ep, g, rnd, rnd.choice(TXNS), variables, ROWS)
+        if i % 13 == 0:
+            engine_variable_sequence(rec, g, rnd)
         if i < 3 and shard == 0:
             rec.sample({'expr': e, 'txn': jtxn(txs[0])})
     # reference-table spot checks quoted in `tally reference`
@@ -403,6 +454,12 @@ def replay(rec, case):
     from tally import expr_parser as ep
     if case['kind'] == 'exact':
         exact_aggregates(rec, ep)
+        return
+    if case['kind'] == 'varseq':
+        rnd = core.rng_for('C04', 'replay')
+        g = lang.Gen(rnd)
+        for _ in range(400):
+            engine_variable_sequence(rec, g, rnd)
         return
     txn = untxn(case['txn'])
     if case['kind'] == 'law':
